@@ -171,6 +171,43 @@ Definition xshape (tree : list stm) (flat : list ev) : option (list xstm) :=
   | None => None
   end.
 
+(* a guarded call followed by a nested test, `if a: c(); if b: X`, and the
+   merged form `if a and not c(): X` (the Walker lists the calls of a test
+   before the `if`) have the same normal form: the calls, then one `if`.
+   Which condition guards the call is then no longer visible in the shape:
+   where this normal form is used, the guard is extracted as an expression
+   instead (Gen/XTask.v, e.g. searchdef_run_hint_gate). *)
+Definition is_ev (s : stm) : bool :=
+  match s with SEv _ => true | _ => false end.
+
+Fixpoint hoist (s : stm) : list stm :=
+  let go := fix go (l : list stm) : list stm :=
+              match l with [] => [] | x :: r => hoist x ++ go r end in
+  match s with
+  | SIf a b =>
+      match go b, rev (go a) with
+      | [], SIf x [] :: revpre =>
+          if forallb is_ev revpre then rev revpre ++ [SIf x []]
+          else [SIf (go a) []]
+      | b', _ => [SIf (go a) b']
+      end
+  | SLoop b => [SLoop (go b)]
+  | STry b hs o f =>
+      [STry (go b) (map (fun h => (fst h, go (snd h))) hs) (go o) (go f)]
+  | other => [other]
+  end.
+
+Fixpoint hoist_list (l : list stm) : list stm :=
+  match l with [] => [] | x :: r => hoist x ++ hoist_list r end.
+
+Definition xshape_hoisted (tree : list stm) (flat : list ev)
+  : option (list xstm) :=
+  match annot_list (hoist_list (prune_list (calls_only_list tree)))
+                   (mkCnt (exit_kinds flat) 0 0 0) with
+  | Some (x, c) => match c_kinds c with [] => Some x | _ => None end
+  | None => None
+  end.
+
 (* ------------------------------------------------------ interpreter *)
 Inductive ctl : Type := CNorm | CRet | CBrk | CCont | CRaise (x : string).
 
@@ -318,14 +355,14 @@ Local Open Scope string_scope.
 (* =============================================== (a) expected shapes *)
 (* SearchDef.run  <->  sd_run / first_match *)
 Definition x_searchdef_run : list xstm :=
-  [ XIf 0                                 (* match s_hint d with Some h *)
-      [ XEv (Call "hint_search");         (*   ohint h l *)
-        XIf 1 [XRet 0] [] ]               (*   false => None *)
-      [];
+  [ XEv (Call "hint_search");             (* ohint h l  (only with a hint) *)
+    XIf 0 [XRet 0] [];                    (* hint and not found => None *)
     XLoop 0                               (* first_match (s_pats d) *)
       [ XEv (Call "pattern_match");       (*   omatch p l *)
-        XIf 2 [XBreak] [] ];              (*   Some g => Some g  (FIRST hit) *)
+        XIf 1 [XBreak] [] ];              (*   Some g => Some g  (FIRST hit) *)
     XRet 1 ].                             (* the match (or None) *)
+(* (normal form [xshape_hoisted]: `if self.hint: ret = search; if not ret:
+   return None` and `if self.hint and not search: return None` coincide) *)
 
 (* SearchConstraintsManager.apply_single  <->  apply_single(_loop) *)
 Definition x_apply_single : list xstm :=
@@ -367,14 +404,10 @@ Definition x_simple_search : list xstm :=
     XEv (Call "buffer_append");           (* push: t_buf st ++ [r] *)
     XIf 1 [XEv (Call "flush")] [] ].      (*   NBUF <=? length => flush *)
 
-(* SearchResult.store_result  <->  store_result *)
-Definition x_store_result : list xstm :=
-  [ XEv (Call "groups");
-    XIf 0
-      [ XLoop 0 [ XEv (Call "group");     (* _ :: gs => save_groups 1 gs *)
-                  XEv (Call "save_part") ] ]
-      [ XEv (Call "group");               (* g0 :: [] => [(0, g0)] *)
-        XEv (Call "save_part") ] ].
+(* SearchResult.store_result  <->  store_result: tied through the
+   expressions and the branch condition extracted by the plugin
+   (C01_store_result_indices, C01_store_result_loop_condition), which
+   accepts if/else, negated-and-swapped and guard-clause forms *)
 
 (* SearchTask._run_search  <->  run_file / run_search / lines_loop /
    slots_step / slot_step *)
@@ -446,6 +479,9 @@ Section RunSearchDef.
   Variable ohint : Z -> line -> bool.
   Variable d : sdef.
   Variable l : line.
+  (* the two tests as the source writes them (Gen/XTask.v) *)
+  Variable gate : bool -> Z -> bool.     (* hint pre-check performed? *)
+  Variable leaves : bool -> bool.        (* pattern loop left? *)
 
   Record rst := mkRst {
     rs_hint : bool;                 (* truth of `ret` after hint.search *)
@@ -457,19 +493,19 @@ Section RunSearchDef.
 
   Definition sr_call (f : string) (s : rst) : cres rst :=
     if String.eqb f "hint_search" then
-      match s_hint d with
-      | Some h => COk (mkRst (ohint h l) (rs_ret s) (rs_cur s) (rs_out s))
-      | None => CBad                (* searching an absent hint *)
-      end
+      (* without a hint nothing is searched: the gate below is false *)
+      COk (mkRst (match s_hint d with Some h => ohint h l | None => true end)
+                 (rs_ret s) (rs_cur s) (rs_out s))
     else if String.eqb f "pattern_match" then
       COk (mkRst (rs_hint s) (omatch (rs_cur s) l) (rs_cur s) (rs_out s))
     else CBad.
 
   Definition sr_guard (i : nat) (s : rst) : option (bool * rst) :=
     match i with
-    | 0%nat => Some (is_some (s_hint d), s)            (* if self.hint: *)
-    | 1%nat => Some (negb (rs_hint s), s)              (*   if not ret: *)
-    | 2%nat => Some (is_some (rs_ret s), s)            (* if ret: (loop) *)
+    | 0%nat =>                    (* if self.hint [and] not <search>: *)
+        Some (gate (is_some (s_hint d)) (Z.of_nat (length (s_pats d)))
+              && negb (rs_hint s), s)
+    | 1%nat => Some (leaves (is_some (rs_ret s)), s)   (* if ret: (loop) *)
     | _ => None
     end.
 
